@@ -198,6 +198,48 @@ Example C17_rows_nonvacuous :
   accepted true [GFirstZero; GStartGeFirst] 0 [2; 1] = true /\ valid_schedule 0 [2; 1] = false.
 Proof. vm_compute. repeat split; reflexivity. Qed.
 
+(* ==== the conversion and collection models (conv_table, regenerated from photoelectrons.py / collection.py) ====
+
+   ---- for every option branch of simple_conversion / conversion_with_qe_map that draws no random numbers, what
+   the source adds to the charge bucket is (a factor that depends neither on the photons nor on the time step) *
+   photon: it IS the op Convert of the exposure model; what simple_collection adds to the pixel bucket is the
+   charge bucket itself: it IS the op Collect.  No branch truncates, offsets, squares or re-scales by the step *)
+Theorem C17_conversion_rows_are_model_ops :
+  forall r, In r conv_table -> has_random (cr_expr r) = false ->
+  forall (env : string -> Q) (step : Q) (s : st),
+  if cr_identity r
+  then cr_src r = BkCharge /\ cr_sink r = BkPixel /\
+       (let s' := apply_op step s Collect in
+        pixel s' == pixel s + eval env (charge s) (cr_expr r) /\ photon s' = photon s /\ charge s' = charge s)
+  else cr_src r = BkPhoton /\ cr_sink r = BkCharge /\
+       (let s' := apply_op step s (Convert (qe_of env r)) in
+        charge s' == charge s + eval env (photon s) (cr_expr r) /\ photon s' = photon s /\ pixel s' = pixel s).
+Proof. apply conv_rows_are_ops. vm_compute. reflexivity. Qed.
+Print Assumptions C17_conversion_rows_are_model_ops.
+
+Theorem C17_conversion_rows_linear :
+  forall r, In r conv_table -> has_random (cr_expr r) = false ->
+  forall (env : string -> Q) (x : Q), eval env x (cr_expr r) == qe_of env r * x.
+Proof. apply conv_rows_step_free. vm_compute. reflexivity. Qed.
+Print Assumptions C17_conversion_rows_linear.
+
+(* ---- non-vacuity: each of the three models has a deterministic row; and what the check rejects: a photon count
+   truncated to an integer before the QE is applied, a conversion scaled by the time step, a collection that adds
+   a multiple of the charge, a collection that reads the photon bucket *)
+Example C17_conversion_rows_nonvacuous :
+  conv_models_covered conv_table conv_models = true /\ (3 <=? List.length conv_models)%nat = true /\
+  conv_row_ok {| cr_model := "m"; cr_path := ""; cr_src := BkPhoton; cr_sink := BkCharge; cr_identity := false;
+                 cr_expr := TMul TStep (TVar "qe") |} = true /\
+  conv_row_ok {| cr_model := "m"; cr_path := ""; cr_src := BkPhoton; cr_sink := BkCharge; cr_identity := false;
+                 cr_expr := TMul (TBad BNonlin "array.astype(int)") (TVar "qe") |} = false /\
+  conv_row_ok {| cr_model := "m"; cr_path := ""; cr_src := BkPhoton; cr_sink := BkCharge; cr_identity := false;
+                 cr_expr := TMul (TMul TStep (TVar "qe")) (TBad BClock "detector.time_step") |} = false /\
+  conv_row_ok {| cr_model := "m"; cr_path := ""; cr_src := BkCharge; cr_sink := BkPixel; cr_identity := true;
+                 cr_expr := TMul TStep (TConst 2) |} = false /\
+  conv_row_ok {| cr_model := "m"; cr_path := ""; cr_src := BkPhoton; cr_sink := BkPixel; cr_identity := true;
+                 cr_expr := TStep |} = false.
+Proof. vm_compute. repeat split; reflexivity. Qed.
+
 (* ==== the lifecycle of the buckets, per detector type and per readout loop (tables regenerated by
    translator/c17_life.py from pyxel/detectors/** and from every function that calls detector.empty) =========
 
